@@ -223,6 +223,10 @@ impl<T: Socket + ?Sized> Worker<T> {
                             if window.is_full() {
                                 break;
                             }
+                        } else if received_block_number == block_number && window.is_empty() {
+                            // The last acknowledged block was retransmitted, so the
+                            // acknowledgement did not arrive: repeat it.
+                            self.send_packet(&Packet::Ack(block_number))?;
                         }
                     }
                     Ok(Packet::Error { code, msg }) => {
